@@ -1168,8 +1168,10 @@ class BaseLoss(object):
         num_out = int(p/num_s) # number of out parameters
 
         sens = np.reshape(sens, (n, num_s, num_out), 'F')
+        # the weights of a single observed state may be stored as a vector
+        weight = np.reshape(self._weight, (n, num_s))
         for j in range(num_out):
-            sens[:, :, j] *= self._weight
+            sens[:, :, j] *= weight
 
         grad = functools.reduce(np.add,map(np.dot, diff_loss, sens)).ravel()
 
@@ -1208,8 +1210,10 @@ class BaseLoss(object):
 
         sens = np.reshape(sens, (n, num_s, num_out), 'F')
 
+        # the weights of a single observed state may be stored as a vector
+        weight = np.reshape(self._weight, (n, num_s))
         for j in range(num_out):
-            sens[:,:,j] *= self._weight
+            sens[:,:,j] *= weight
 
         for i, s in enumerate(sens):
             if resid is None:
